@@ -67,9 +67,29 @@ def _method():
     })
 
 
+NON_ASCII = {"alpha": "gr\u00f6\u00dfe", "port": "fl\u00e4che", "name": "\u540d\u524d", "x": "\u00f1", "level": "niveau_\u00e9", "host": "h\u00f4te", "mode": "\u03bc"}
+
+
+def _non_ascii_keys(node):
+    """Some keys become legal identifiers outside ASCII (fields, virtual fields, nested schemas alike)."""
+    kids = []
+    taken = {x["key"] for x in node["children"]}
+    for c in node["children"]:
+        if "children" in c:
+            c = _non_ascii_keys(c)
+        new = NON_ASCII.get(c["key"])
+        if new and new not in taken:
+            for v in node["children"]:
+                if v["kind"] == "virtual" and v.get("of") == c["key"]:
+                    v["of"] = new
+            c = dict(c, key=new)
+        kids.append(c)
+    return dict(node, children=kids)
+
+
 def strategy(tier):
     spec = worlds.schema_spec(tier, depth=1, width=5 if tier == "quick" else 8,
-                              allow=("schema", "configtype", "schemalist", "virtual", "featureflag"))
+                              allow=("schema", "configtype", "schemalist", "virtual", "featureflag")).map(_non_ascii_keys)
     spec = st.tuples(spec, st.booleans()).map(lambda t: dict(t[0], dynamic=t[0].get("dynamic") or t[1]))
     return st.fixed_dictionaries({
         "spec": spec, "methods": st.lists(_method(), max_size=3), "input": st.sampled_from(["schema", "config", "configtype"]),
@@ -134,7 +154,7 @@ def run_case(case, R):
         mkeys = []
         funcs = {}
         for i, m in enumerate(case["methods"]):
-            key = "do_%d" % i
+            key = "do_%d" % i if i != 1 else "\u00f6ffnen_%d" % i  # (a method name outside ASCII, too)
             ns = {"typing": typing, "Config": cc.Config, "LocalThing": LocalThing}
             exec(compile(_source(key, m), "<generated>", "exec"), ns)  # harness-generated source only
             funcs[key] = ns[key]
